@@ -1,16 +1,15 @@
-INIT CInit
-NEXT CNext
+INIT TInit
+NEXT TNext
 CONSTANTS
   Mode = "pairs"
   Depth = 1
   LitSet = "small"
-  MaxPos = 0
-  MaxKw = 0
-  MaxArgs = 0
+  MaxPos = 1
+  MaxKw = 1
+  MaxArgs = 1
   FnFilter = "all"
   Shapes = {"plain"}
   MaxSess = 0
-  FixProtoCache = FALSE
+  FixProtoCache = TRUE
   Bug = "none"
-INVARIANT EmitLib
 CHECK_DEADLOCK FALSE
